@@ -108,10 +108,10 @@ theorem tieA_first_data_channel {σ} (g : Rng σ) (j : Gen.PlanSelectFn.JoinChan
     · intro c hc; cases hc
     · exact ⟨h1, h2, h3, h4⟩
 
-/-- the abstract bank walk `JoinChannels::get_next_channel` is the model's `getNextChannel` (hypothesis of the theorems
-below; the walk itself — `AvailableChannels::get_next`, its entropy loop — is not translated yet) -/
-def JcOk {σ} (g : Rng σ) (ops : Gen.PlanSelectFn.JcOps σ) : Prop :=
-  ∀ (j : Gen.PlanSelectFn.JoinChannels) (s : σ), JcWF j →
+/-- the abstract bank walk `JoinChannels::get_next_channel`, called on the state `j` with the stream `s`, answers as the
+model's `getNextChannel` (hypothesis of the theorems below — needed only at the one call `select_tx_channel` makes; the
+walk itself — `AvailableChannels::get_next`, its entropy loop — is not translated yet) -/
+def JcOk {σ} (g : Rng σ) (ops : Gen.PlanSelectFn.JcOps σ) (j : Gen.PlanSelectFn.JoinChannels) (s : σ) : Prop :=
     (ops.get_next_channel j s).map (fun o => (o.1.toNat, jcOf o.2.1, o.2.2)) = ((jcOf j).getNextChannel g s).toOption ∧
     ∀ o, ops.get_next_channel j s = some o → 0 ≤ o.1 ∧ o.1 ≤ 255 ∧ JcWF o.2.1
 
@@ -148,13 +148,13 @@ has it) is the model's: the channel the bank walk yields, DR0 below channel 64 a
 on the 500 kHz channels, the uplink frequency of that channel and the downlink frequency of `channel % 8`, the
 join-channel state as the walk leaves it — for every plan, data rate, generator and stream, and every walk that is
 the model's (`JcOk`) -/
-theorem tieA_fixed_select_join_partial {σ} (g : Rng σ) (ops : Gen.PlanSelectFn.JcOps σ) (hops : JcOk g ops)
+theorem tieA_fixed_select_join_partial {σ} (g : Rng σ) (ops : Gen.PlanSelectFn.JcOps σ)
     (rs : RegionState) (p : Gen.PlanSelectFn.FixedChannelPlan) (hplan : rs.plan = .fix (fixOf p))
-    (hj : JcWF p.join_channels) (dr : DR) (s : σ) :
+    (hj : JcWF p.join_channels) (dr : DR) (s : σ) (hops : JcOk g ops p.join_channels s) :
     (@Gen.PlanSelectFn.FixedChannelPlan.select_tx_channel σ (rngOf g) (fuelOf loopFuel) (fregOf rs.id) ops p s dr .Join).map
         (fun o => (txOf o.1, { rs with plan := .fix (fixOf o.2.1) }, o.2.2))
       = (selectTxChannel g rs dr .join s).toOption := by
-  obtain ⟨hg1, hg2⟩ := hops p.join_channels s hj
+  obtain ⟨hg1, hg2⟩ := hops
   unfold Gen.PlanSelectFn.FixedChannelPlan.select_tx_channel selectTxChannel
   simp only [hplan, Option.bind_eq_bind, Option.pure_def, fixOf]
   cases hgn : ops.get_next_channel p.join_channels s with
@@ -218,16 +218,16 @@ def MaskWF (p : Gen.PlanSelectFn.FixedChannelPlan) : Prop := p.channel_mask._0.l
 disables the channel the walk yields, the regenerated `select_tx_channel` is the model's — that channel, with the
 data rate the channel mandates (DR0 / `JOIN_DR_500KHZ`), mask untouched, join-channel state as the walk leaves it.
 (The case "the mask disables the biased channel" continues as without a bias; see `…_full` below.) -/
-theorem tieA_fixed_select_data_biased_partial {σ} (g : Rng σ) (ops : Gen.PlanSelectFn.JcOps σ) (hops : JcOk g ops)
+theorem tieA_fixed_select_data_biased_partial {σ} (g : Rng σ) (ops : Gen.PlanSelectFn.JcOps σ)
     (rs : RegionState) (p : Gen.PlanSelectFn.FixedChannelPlan) (hplan : rs.plan = .fix (fixOf p))
-    (hj : JcWF p.join_channels) (hm : MaskWF p) (dr : DR) (s : σ)
+    (hj : JcWF p.join_channels) (hm : MaskWF p) (dr : DR) (s : σ) (hops : JcOk g ops p.join_channels s)
     (hb : (jcOf p.join_channels).hasBiasAndNotExhausted = true)
     (hen : ∀ ch jc' s1, (jcOf p.join_channels).getNextChannel g s = .ok (ch, jc', s1) →
       Mask.isEnabled (natsOf p.channel_mask._0) ch ≠ .ok false) :
     (@Gen.PlanSelectFn.FixedChannelPlan.select_tx_channel σ (rngOf g) (fuelOf loopFuel) (fregOf rs.id) ops p s dr .Data).map
         (fun o => (txOf o.1, { rs with plan := .fix (fixOf o.2.1) }, o.2.2))
       = (selectTxChannel g rs dr .data s).toOption := by
-  obtain ⟨hg1, hg2⟩ := hops p.join_channels s hj
+  obtain ⟨hg1, hg2⟩ := hops
   obtain ⟨hml, hoct⟩ := hm
   have hb' := tieA_has_bias_and_not_exhausted p.join_channels hj
   rw [hb] at hb'
@@ -298,11 +298,41 @@ theorem tieA_fixed_select_data_biased_partial {σ} (g : Rng σ) (ops : Gen.PlanS
                 | none => rfl
                 | some f1 => rfl
 
+/-! ## non-vacuity: US915, join bias on sub-band 2 with one try, evaluated through the REGENERATED code -/
+
+/-- a US915 plan as `State::new` builds it, with `set_join_bias(Subband::_2)`; `exPlanFixJoined`: after one join attempt
+on channel 10 -/
+def exJc (n : Int) (prev : Int) : Gen.PlanSelectFn.JoinChannels :=
+  { max_retries := 1, num_retries := n, preferred_subband := some ._2,
+    available_channels := ⟨⟨List.replicate 9 255⟩, none⟩, previous_channel := prev }
+def exPlanFix : Gen.PlanSelectFn.FixedChannelPlan := { channel_mask := ⟨List.replicate 9 255⟩, join_channels := exJc 0 0 }
+
+/-- the walk, tabulated at the one state the example calls it in: what the model's `getNextChannel` answers there -/
+@[reducible] def exOps : Gen.PlanSelectFn.JcOps Nat :=
+  ⟨fun j s => if j = exJc 0 0 ∧ s = 5 then
+      some (13, { (exJc 1 13) with available_channels := ⟨⟨[255, 223, 255, 255, 255, 255, 255, 255, 255]⟩, some 13⟩ }, 6)
+    else none⟩
+
+/-- the hypotheses of `tieA_fixed_select_join_partial` are satisfiable (`JcOk` at the state of the call: the tabulated
+answer IS the model's, by evaluation), and the regenerated method then sends the join request on channel 13 of
+sub-band 2 (904.9 MHz) at DR0; `first_data_channel` after that join yields a channel of the same sub-band and clears
+the bias -/
+example :
+    JcWF exPlanFix.join_channels ∧ (RegionState.init .US915 |>.setJoinBias 2 1).plan = .fix (fixOf exPlanFix) ∧
+    (exOps.get_next_channel exPlanFix.join_channels 5).map (fun o => (o.1.toNat, jcOf o.2.1, o.2.2))
+      = ((jcOf exPlanFix.join_channels).getNextChannel exGen 5).toOption ∧
+    (@Gen.PlanSelectFn.FixedChannelPlan.select_tx_channel Nat (rngOf exGen) (fuelOf loopFuel) (fregOf .US915) exOps exPlanFix 5 DR._3 .Join).map
+        (fun o => (o.1.frequency, o.1.dr, o.2.1.join_channels.previous_channel, o.2.2)) = some (904900000, DR._0, 13, 6) ∧
+    (@Gen.PlanSelectFn.JoinChannels.first_data_channel Nat (rngOf exGen) (exJc 1 13) 6).map
+        (fun o => (o.1, o.2.1.preferred_subband, o.2.2)) = some (some 14, none, 7) := by
+  refine ⟨⟨by decide, by decide, by decide, by decide⟩, ?_, ?_, ?_, ?_⟩ <;> decide +kernel
+
 /- NOT REACHED (full statement, kept visible): the whole data-frame branch and the whole method on a fixed plan,
 
-theorem tieA_fixed_select_tx_channel {σ} (g : Rng σ) (ops : Gen.PlanSelectFn.JcOps σ) (hops : JcOk g ops)
+theorem tieA_fixed_select_tx_channel {σ} (g : Rng σ) (ops : Gen.PlanSelectFn.JcOps σ)
     (rs : RegionState) (p : Gen.PlanSelectFn.FixedChannelPlan) (hplan : rs.plan = .fix (fixOf p))
-    (hj : JcWF p.join_channels) (hm : MaskWF p) (dr : DR) (frame : Gen.PlanSelectFn.Frame) (s : σ) :
+    (hj : JcWF p.join_channels) (hm : MaskWF p) (dr : DR) (frame : Gen.PlanSelectFn.Frame) (s : σ)
+    (hops : ∀ j s, JcWF j → JcOk g ops j s) :
     (@Gen.PlanSelectFn.FixedChannelPlan.select_tx_channel σ (rngOf g) (fuelOf loopFuel) (fregOf rs.id) ops p s dr frame).map
         (fun o => (txOf o.1, { rs with plan := .fix (fixOf o.2.1) }, o.2.2))
       = (selectTxChannel g rs dr (frameOf frame) s).toOption
